@@ -15,6 +15,11 @@ CHECKS = {
    note="Trusts: README table as the spec; the harness' symbol->constructor mapping; Value's PartialEq. Not covered: chains >4 operators, arbitrary deep trees.",
    ref="DESIGN.md §3 C09"),
 }
+CHECKS["C11"] = dict(cat=MC, engine="E2 xseq (bounded-exhaustive datagram sequences on the real reassembler)",
+   technique="exhaustive enumeration of fragment arrival orders, duplicates, frame interleavings, malformed mixes and expiry event sequences on the real Fragments type vs list-based reference reassembler",
+   text="Size x MTU grid (13 MTUs, boundary sizes, real Frame and transparent buffer); every permutation of <=6 (thorough 7) fragments with one duplicate of any fragment at any position; every arrival order of 2-3 frames; 10 malformed datagrams (and pairs) at every position; structured (thorough: all length<=6) expiry sequences with id reuse on the real clock; id wrap. Compared with the reference after every datagram.",
+   note="Trusts: list reference as the spec; real clock for expiry (ambiguous timings are discarded, never judged). MTU >= 5. Frames needing >255 fragments are 'not representable' (may be dropped, never mangled). Two-writer id collisions are checked under C10.",
+   ref="DESIGN.md §3 C11")
 NOT_YET = "check not built yet in this revision (see DESIGN.md §3 for the planned model-checking design)"
 def main():
     checks = []
